@@ -699,6 +699,58 @@ def reach_dup_names(mode: int, n: int, chunk: int) -> int:
     return dup_names_check(mode, n, chunk)
 
 
+def remap_check(n, chunk, how, kind):
+    """The records of a frame are generated once (a first write); then a channel is pointed at another data set
+    (dataset_name re-assigned) or replaced in the frame by another channel of the same name reading another data set;
+    the records generated next carry the rows of the data set the channel names NOW."""
+    nps.reset()
+    df, (lf,) = new_file(1)
+    add_origin(lf, 'O')
+    a = lf.add_channel('A', dataset_name='dsA')
+    b = lf.add_channel('B', dataset_name='dsB')
+    fr = lf.add_frame('F', channels=(a, b))
+    ca, cb, cc = col('colA', n, 2, '<', None), col('colB', n, 7, '<', None), col('colC', n, 2, '<', None)
+    if kind == 0:
+        src = {'dsA': ca, 'dsB': cb, 'dsC': cc}
+    else:
+        sdt = nps.StructDtype([('dsA', ca.dtype), ('dsB', cb.dtype), ('dsC', cc.dtype)])
+        f = {'dsA': nps.Field('caller', 'colA', 0, ca.dtype, None), 'dsB': nps.Field('caller', 'colB', 0, cb.dtype, None),
+             'dsC': nps.Field('caller', 'colC', 0, cc.dtype, None)}
+        src = nps.structarr('caller', n, sdt, f)
+    first = list(lf._make_multi_frame_data(fr, chunk_size=chunk, data=src))
+    if len(first) != n or first[0]._slots.arr.fields['A'].column != 'colA':
+        return 1
+    if how == 0:
+        a.dataset_name = 'dsC'
+    else:
+        a2 = lf.add_channel('A', dataset_name='dsC')
+        fr.channels.value = [a2, b]
+    second = list(lf._make_multi_frame_data(fr, chunk_size=chunk, data=src))
+    if len(second) != n:
+        return 2
+    for r in second:
+        fl = r._slots.arr.fields
+        if list(fl.keys()) != ['A', 'B'] or fl['A'].column != 'colC' or fl['B'].column != 'colB':
+            return 3
+    return 0
+
+
+def ob_remap(n: int, chunk: int, how: int, kind: int) -> int:
+    """
+    pre: 1 <= n <= 3 and 1 <= chunk <= 3 and 0 <= how <= 1 and 0 <= kind <= 1
+    post: _ == 0
+    """
+    return remap_check(n, chunk, how, kind)
+
+
+def reach_remap(n: int, chunk: int, how: int, kind: int) -> int:
+    """
+    pre: 1 <= n <= 3 and 1 <= chunk <= 3 and 0 <= how <= 1 and 0 <= kind <= 1
+    post: _ != 0
+    """
+    return remap_check(n, chunk, how, kind)
+
+
 def ob_two_frames(n1: int, n2: int, c1: int, c2: int) -> int:
     """
     pre: 1 <= n1 <= 4 and 1 <= n2 <= 4 and 1 <= c1 <= 5 and 1 <= c2 <= 5
